@@ -291,10 +291,22 @@ def n_matching_first(fname, A):
     return cnt
 
 
+def load_optional_modules():
+    """modules that `import cola` does not load but that register rules in the same global registry (keyed by function
+    name): a user who imports them must still get exactly one applicable rule for every call of the lattice"""
+    import importlib
+    for m in ("cola.linalg.preconditioning.preconditioners", "cola.linalg.svd.svd", "cola.linalg.tbd.slq", "cola.linalg.tbd.randomized_svd"):
+        try:
+            importlib.import_module(m)
+        except Exception:
+            pass
+
+
 def run_tuple(t):
     """t = (family, fname, kind, kind2|None, ann, variant) -> (status, detail, nontrivial)."""
     import cola
     from cvh import runner
+    load_optional_modules()
     family, fname, kind, kind2, ann, variant, n, dtn = t
     dt = {"f8": np.float64, "c16": np.complex128, "f4": np.float32}[dtn]
     F = factories(n, dt, 0 if dtn == "f8" else 1)
@@ -356,9 +368,9 @@ LARGE_CALLS = ["inv", "solve", "pinv", "slogdet", "logdet", "diag", "trace", "ex
 LARGE_OMITTED = ["inv", "pinv", "eig", "exp", "svd"]
 
 
-def large_operator(psd, ann):
+def large_operator(psd, ann, n=1001):
     import cola
-    n, r = 1001, 4
+    r = 4
     rng = np.random.default_rng(5)
     U = rng.standard_normal((n, r)) / np.sqrt(n)
     V = U if psd else rng.standard_normal((n, r)) / np.sqrt(n)
@@ -370,8 +382,9 @@ def run_large(t):
     import cola
     from cola.linalg.svd.svd import svd
     L = cola.linalg
-    fname, psd, ann, variant = t
-    A, n = large_operator(psd, ann)
+    fname, psd, ann, variant = t[:4]
+    load_optional_modules()
+    A, n = large_operator(psd, ann, t[4] if len(t) > 4 else 1001)
     kw = dict(tol=2e-3, max_iters=12)
     alg = [] if variant == "omitted" else [L.Auto(**kw)]
     v = np.ones(n)
@@ -417,6 +430,12 @@ def large_lattice():
                 out.append((fname, psd, ann, "Auto(kw)"))
                 if fname in LARGE_OMITTED:
                     out.append((fname, psd, ann, "omitted"))
+    # exactly at the switch: 1000 x 1000 = 10^6 entries (one side or the other has to take it)
+    for fname in LARGE_CALLS:
+        for psd in (True, False):
+            out.append((fname, psd, None, "Auto(kw)", 1000))
+            if fname in LARGE_OMITTED:
+                out.append((fname, psd, None, "omitted", 1000))
     return out
 
 
@@ -474,9 +493,10 @@ def deterministic(tier, seed, open_findings):
         if status == "other":
             other["large:" + detail] += 1
         if status == "lookup":
-            fname, psd, ann, variant = t
-            f = {"sub": "lookup", "site": f"{fname}(large {'PSD-capable' if psd else 'general'} operator;{variant})", "man": detail.split(":")[0],
-                 "detail": f"ann={ann} n=1001 {detail}"}
+            fname, psd, ann, variant = t[:4]
+            nn = t[4] if len(t) > 4 else 1001
+            f = {"sub": "lookup", "site": f"{fname}({'large' if nn > 1000 else 'threshold-size'} {'PSD-capable' if psd else 'general'} operator;{variant})",
+                 "man": detail.split(":")[0], "detail": f"ann={ann} n={nn} {detail}"}
             kid = runner.known_id(open_findings, f)
             if kid:
                 excluded[kid] += 1
@@ -528,8 +548,9 @@ def check(case, out):
     if case.get("mode") == "large":
         status, detail = run_large(tuple(case["tuple"]))
         if status == "lookup":
-            fname, psd, ann, variant = case["tuple"]
-            out.fail("lookup", f"{fname}(large {'PSD-capable' if psd else 'general'} operator;{variant})", detail.split(":")[0], detail)
+            fname, psd, ann, variant = case["tuple"][:4]
+            nn = case["tuple"][4] if len(case["tuple"]) > 4 else 1001
+            out.fail("lookup", f"{fname}({'large' if nn > 1000 else 'threshold-size'} {'PSD-capable' if psd else 'general'} operator;{variant})", detail.split(":")[0], detail)
         return
     if case.get("mode") == "tuple":
         status, detail, nt = run_tuple(tuple(case["tuple"]))
